@@ -222,7 +222,7 @@ impl Gen {
             3 => Op::Insert(rand_index(r, cur), rand_char(r)),
             4 => Op::InsertStr(rand_index(r, cur), rand_text(r, 3)),
             5 => Op::Remove(rand_index(r, cur)),
-            6 => Op::Truncate(rand_index(r, cur)),
+            6 => if r.chance(2, 5) { Op::Index { kind: r.below(6) as u8, a: rand_index(r, cur), b: rand_index(r, cur) } } else { Op::Truncate(rand_index(r, cur)) },
             7 => Op::Clear,
             8 => {
                 let n = cur.chars().count();
